@@ -312,7 +312,15 @@ pub fn run(opts: &Opts) -> i32 {
             };
             let mut body = String::new();
             q.body.tok(&mut body);
-            jobs.push((i, name, q.source(), q.request(fuel, b""), body));
+            jobs.push((i, name, q.source(), q.request(fuel, b""), body.clone()));
+            // the same naming with copattern spines, multi-parameter functions, n-ary tuple patterns
+            // and tuple matches as the surface offers them (binders that share one pattern or spine)
+            if name != "as-generated" {
+                let sugared = q.source_sugared();
+                if sugared != q.source() {
+                    jobs.push((i, if name == "permute" { "permute-sugar" } else { "shadow-sugar" }, sugared, q.request(fuel, b""), body));
+                }
+            }
         }
     }
     let dir = opts.out.join("src");
